@@ -9,6 +9,8 @@ Does not decide: that the truncated constraint set is "consistent" numerically.
 from __future__ import annotations
 
 from .. import engine, r_nullable
+from ..cfront import AnalysisError
+engine.AnalysisError = AnalysisError
 
 BASE = {"mj_arenaAllocByte"}
 FLOOR_SITES = 12      # hand-confirmed: 19 textual sites on the pinned tree, X-macro sites expand further
@@ -95,6 +97,47 @@ def run(res, tier):
                             f"status of {c['callee']}() (distinguishes arena exhaustion) is discarded")
                 else:
                     res.ok("R-STATUS", construct, {"file": c["file"], "line": c["line"]})
+    # R-CLEAR-COUNTS (sibling agreement): the counters that mj_makeConstraint zeroes when it starts a new constraint set
+    # must all be zeroed by the clearer that runs when the arena is exhausted later (mj_clearEfc); otherwise later stages
+    # index the NULLed efc arrays through a stale count.
+    from .. import cir as _cir
+    r3 = res.rule("R-CLEAR-COUNTS", "mj_clearEfc zeroes every constraint counter that mj_makeConstraint's initial reset zeroes", floor=4)
+    ucc = engine.unit("src/engine/engine_core_constraint.c")
+    mk = ucc.funcs.get("mj_makeConstraint")
+    ce = ucc.funcs.get("mj_clearEfc")
+    if mk is None or ce is None:
+        raise engine.AnalysisError("mj_makeConstraint / mj_clearEfc not found")
+
+    def zeroed(fn, prefix_only):
+        out = {}
+        for st in _cir.kids(_cir.body(fn)):
+            if st is None:
+                continue
+            has_call = any(True for _ in _cir.calls(st))
+            for n in _cir.walk(st):
+                if n.get("k") == "BinaryOperator" and n.get("op") == "=":
+                    l = _cir.strip(_cir.kids(n)[0])
+                    # chained a = b = 0: value is the innermost literal
+                    v = _cir.strip(_cir.kids(n)[1])
+                    while v is not None and v.get("k") == "BinaryOperator" and v.get("op") == "=":
+                        v = _cir.strip(_cir.kids(v)[1])
+                    if l is not None and l.get("k") == "MemberExpr" and l.get("arrow") and v is not None and \
+                            v.get("k") == "IntegerLiteral" and str(v.get("v")) == "0" and "*" not in (l.get("t") or ""):
+                        out[l.get("n")] = n.get("line")
+            if prefix_only and (has_call or st.get("k") in ("IfStmt", "ForStmt", "WhileStmt")) and out:
+                break
+        return out
+    a = zeroed(mk, True)
+    b = zeroed(ce, False)
+    if "nefc" not in a or "nefc" not in b:
+        raise engine.AnalysisError("constraint-count reset not found in mj_makeConstraint / mj_clearEfc")
+    for cnt in sorted(a):
+        if cnt in b:
+            res.ok("R-CLEAR-COUNTS", f"mj_clearEfc:{cnt}", None)
+        else:
+            res.bad("R-CLEAR-COUNTS", f"mj_clearEfc:{cnt}", ce.get("file") or "src/engine/engine_memory.h", ce.get("line"),
+                    f"mj_makeConstraint resets d->{cnt} together with nefc, but mj_clearEfc (run when the arena is exhausted) "
+                    f"leaves it: later stages loop over the cleared efc arrays with a stale count")
     res.extra["producers"] = sorted(producers)
     res.extra["status_functions"] = {k: v["ret_literals"] for k, v in status_funcs.items()}
     res.extra["fixpoint_rounds"] = rounds
